@@ -24,6 +24,7 @@ def parseCall (s : String) : Option Call :=
   | ["bs", b] => (ofHex b).map (.body .string)
   | ["bb", b] => (ofHex b).map (.body .bytes)
   | ["bj", b] => (ofHex b).map (.body .json)
+  | ["bt", _z, _a, _m, _w, b] => (ofHex b).map (.body .json)   -- body_json of a typed value: the bytes serde_json gives for it
   | ["bf", ps] => (parsePairs ps).map .bodyForm
   | ["gs", b] => (ofHex b).map (.body .string)
   | ["gb", b] => (ofHex b).map (.body .bytes)
